@@ -64,7 +64,7 @@ def conn_guard(ctx: Ctx, chk) -> None:
         f = st.find_method(name)
         g = CFG(f.node)
         for attr in ("reader", "writer"):
-            uses = g.nodes_where(lambda n, a=attr: n.kind != "test" and any(isinstance(x, ast.Attribute) and isinstance(x.value, ast.Attribute) and norm(x.value) == f"self.{a}" for x in ast.walk(n.ast)))
+            uses = g.nodes_where(lambda n, a=attr: n.kind != "test" and any(isinstance(x, ast.Attribute) and isinstance(x.value, ast.Attribute) and norm(x.value) == f"self.{a}" for p_ in n.parts() for x in ast.walk(p_)))
             guards = g.nodes_where(lambda n, a=attr: n.kind == "test" and norm(n.ast) in (f"self.{a} is None", f"not self.{a}", f"self.{a} is not None", f"self.{a}"))
             for u in uses:
                 n_uses += 1
